@@ -126,7 +126,11 @@ def run():
     jobs, meta = [], []
     exhaustive_groups = 0
     for gi in range(n_base):
-        if gi % 3 == 2:
+        if gi % 6 == 4:
+            # mappings whose keys mix integers, floats and strings (YAML, pickles, Python objects), incl. look-alikes
+            # (1 and "1") and key sets whose text order is cyclic with the numeric one (9 < 10 < "5" < 9)
+            a, b = docs.random_mixedkeys_docs(r)
+        elif gi % 3 == 2:
             # tie-biased: keys that differ only in case or in one letter, values from a tiny pool, so that several
             # pairings have exactly the same cost and only a canonical order can make the choice stable
             pool = r.choice((("k", "K"), ("id", "ID", "Id", "iD"), ("ka", "kb", "kc", "kd"), ("a", "A", "b", "B"), ("xy", "xY", "Xy", "yx")))
@@ -218,7 +222,7 @@ def run():
                 "pair; plus %d pairs 'document vs key-permuted copy' (cost 0) and 'two unequal list elements swapped' "
                 "(cost > 0) validated against the C02 clauses of EditScript; distinct by (pair, variant)"
                 % (n_base, limit, len(cases)))
-    chk.assumptions = ["mapping keys are strings (mixed-type keys sort with a non-transitive fallback: ambiguous domain)",
+    chk.assumptions = ["mapping keys are scalars: strings, and (every sixth base pair) mixed integers / floats / strings",
                        "permutation = Python dict insertion order, which is what every loader hands to the builder"]
     return chk.finish()
 
